@@ -356,6 +356,44 @@ Theorem C16_move_to_com_set_is_com_variation : forall (cs : list (@cfg R)) (k : 
 Proof. exact var1_pass_is_com_variation. Qed.
 Print Assumptions C16_move_to_com_set_is_com_variation.
 
+(* ---------------------------------------------------------------- corners of the quantified space, stated explicitly *)
+(* N_real = 0 and N_real = 1: the force theorems need no hypothesis on the positions (there is no pair); any N_active <= N
+   (N_active = 0 included), any testparticle_type, gravity_ignore_terms, softening.
+   Excluded corner, in words: two visited particles at the same place with zero softening.  There the binary64 code divides by
+   zero in BOTH the real and the variational loops (inf/NaN accelerations); the correspondence compares exactly that
+   bit for bit, the real-number theorems say nothing (Coq's 1/0 = 0 is not the code's behaviour). *)
+Theorem C16_corner_N0_N1 : forall (G soft bx by_ bz : R) (ign nact : nat) (tp : bool) (pds : list (Part R * Part R)),
+  (length pds <= 1)%nat -> (nact <= length pds)%nat ->
+  map dp3 (grav_basic DR (dconst RNum G) (dconst RNum soft) (dconst RNum bx) (dconst RNum by_) (dconst RNum bz)
+             0 0 0 ign nact tp (dlifts pds))
+  = grav_var1 RNum (soft * soft) G ign nact tp (map fst pds) (map snd pds).
+Proof.
+  intros G soft bx by_ bz ign nact tp pds Hl Hn. apply var1_is_dual_part; [|exact Hn].
+  intros i j Hij. rewrite map_length in Hij. lia.
+Qed.
+Print Assumptions C16_corner_N0_N1.
+
+(* MEGNO at t = 0 (before the first step, or a run that returns to t = 0): reb_simulation_megno returns 0, not Yss/0;
+   reb_simulation_lyapunov returns 0 while var_t = 0 (fewer than two distinct update times).
+   Rescaling: a configuration with lrescale < 0 is never touched (the documented opt-out), whatever its magnitude. *)
+Theorem C16_corner_megno_t0_and_rescale_optout :
+  (forall Yss : R, megno_of RNum 0 Yss = 0) /\
+  (forall s : @MS R, mvar s = 0 -> lyapunov_of RNum s = 0) /\
+  (forall (big : R) (fl : Flags) (c : @VCfg R), vc_lres c < 0 -> rescale_one RNum ln big fl c = (fl, c, false)).
+Proof.
+  split; [|split].
+  - intros Yss. unfold megno_of. cbn. unfold Reqb. destruct (Req_EM_T 0 0); [reflexivity|contradiction].
+  - intros s H. unfold lyapunov_of. cbn. rewrite H. unfold Reqb. destruct (Req_EM_T 0 0); [reflexivity|contradiction].
+  - intros big fl c H. unfold rescale_one. cbn [nltb RNum nzero]. unfold Rltb. destruct (Rlt_dec (vc_lres c) 0); [reflexivity|contradiction].
+Qed.
+Print Assumptions C16_corner_megno_t0_and_rescale_optout.
+
+(* Constructors: the Pal-element theorems include e = 0 (h = k = 0) and ix = iy = 0 (no hypothesis excludes them); the
+   classical-element theorems include e = 0 and any inc, but there the C functions differentiate at the elements
+   reb_orbit_from_particle recovers (omega, Omega arbitrary at e = 0 / inc = 0: documented singularity of these elements).
+   Excluded: unbound orbits (a < 0, e >= 1): the Pal family returns NaN there (sqrt(1-h^2-k^2) of a negative number) and
+   sqrt(G(m+M)/a) is NaN for a < 0; Variation.vary documents bound orbits only.  Model and code agree bit for bit there too. *)
+
 (* Non-vacuity: a star and two planets at distinct positions; a bound orbit meeting the constructor hypotheses *)
 Example C16_hypotheses_inhabited :
   distinct 0 [mkP 1 0 0 0; mkP (1/1000) 1 0 0; mkP 0 0 2 (1/2)] /\
